@@ -184,24 +184,25 @@ where
     }
 
     pub fn parse(self) -> Result<OrderedAig<L>, ParseError> {
+        // The counts of the header are not backed by input data yet, so they only serve as a
+        // (bounded) hint for pre-allocation.
+        const MAX_RESERVE: usize = 1 << 12;
+
         let mut aig = OrderedAig {
             max_var_index: self.header.max_var_index,
             input_count: self.header.input_count,
             ..OrderedAig::default()
         };
 
-        aig.latches.reserve(self.header.latch_count);
-        aig.outputs.reserve(self.header.output_count);
+        aig.latches.reserve(self.header.latch_count.min(MAX_RESERVE));
+        aig.outputs.reserve(self.header.output_count.min(MAX_RESERVE));
         aig.bad_state_properties
-            .reserve(self.header.bad_state_property_count);
+            .reserve(self.header.bad_state_property_count.min(MAX_RESERVE));
         aig.invariant_constraints
-            .reserve(self.header.invariant_constraint_count);
-        aig.justice_properties = (0..self.header.justice_property_count)
-            .map(|_| vec![])
-            .collect();
+            .reserve(self.header.invariant_constraint_count.min(MAX_RESERVE));
         aig.fairness_constraints
-            .reserve(self.header.fairness_constraint_count);
-        aig.and_gates.reserve(self.header.and_gate_count);
+            .reserve(self.header.fairness_constraint_count.min(MAX_RESERVE));
+        aig.and_gates.reserve(self.header.and_gate_count.min(MAX_RESERVE));
 
         let justice_property_count = self.header.justice_property_count;
 
@@ -225,12 +226,15 @@ where
             aig.invariant_constraints.push(invariant_constraint);
         }
 
-        let mut justice_property_sizes = Vec::with_capacity(justice_property_count);
+        let mut justice_property_sizes =
+            Vec::with_capacity(justice_property_count.min(MAX_RESERVE));
 
         let mut aag_reader = aag_reader.justice_properties()?;
         while let Some(justice_property_size) = aag_reader.next_justice_property_size()? {
             justice_property_sizes.push(justice_property_size);
         }
+
+        aig.justice_properties = justice_property_sizes.iter().map(|_| vec![]).collect();
 
         let mut justice_property = 0;
 
